@@ -205,3 +205,192 @@ Theorem C08_digest_input_ignores_comments_partial : forall reparse root1 root2 e
   obs_ref_bytes canon_model reparse root1 = obs_ref_bytes canon_model reparse root2.
 Proof. exact digest_input_ignores_comments. Qed.
 Print Assumptions C08_digest_input_ignores_comments_partial.
+
+(* ---- (f) the WHOLE verdict of the signature model (Dsig.v with canon := canon_model; digest, signature check, certificate
+        parser and re-parse arbitrary) under a change of comment layout: closes the gap of
+        C08_digest_input_ignores_comments_partial.  findSignature on the stripped tree makes the same visits (comments cost
+        nothing of the 1000-visit budget: no budget premise), leaves the stripped tree behind and unmarshals the same
+        types.Signature; the PATH of the signature differs (a comment before it shifts the child index) and is translated by
+        [npath]: parent context, element and removeElementAtPath agree along translated paths. ---- *)
+From V Require Import P_Layout.
+
+(* path translation, by its properties: the node at the translated path of the stripped tree is the stripped node; the
+   parent context is the same; removing there is removing here *)
+Theorem C08_signature_path_translation : forall p n p',
+  npath n p = Some p' ->
+  (exists s, node_at n p = Some s /\ node_at (strip_comments n) p' = Some (strip_comments s)) /\
+  (forall c, parent_ctx c (strip_comments n) p' = parent_ctx c n p) /\
+  remove_at_path (strip_comments n) p' = option_map strip_comments (remove_at_path n p).
+Proof. intros p n p' H. exact (conj (npath_node_at p n p' H) (conj (fun c => npath_parent_ctx p n p' c H) (npath_remove p n p' H))). Qed.
+Print Assumptions C08_signature_path_translation.
+
+Theorem C08_find_signature_ignores_comments : forall root, is_elem root = true ->
+  match find_signature root with
+  | Err e => find_signature (strip_comments root) = Err e
+  | Ok (root', f1) =>
+      exists f2, find_signature (strip_comments root) = Ok (strip_comments root', f2) /\
+                 fs_sig f2 = fs_sig f1 /\ fs_si_alg f2 = fs_si_alg f1 /\
+                 fs_si_detached f2 = strip_comments (fs_si_detached f1) /\
+                 npath root' (fs_path f1) = Some (fs_path f2)
+  end.
+Proof. exact find_signature_sc. Qed.
+Print Assumptions C08_find_signature_ignores_comments.
+
+(* Premises, both about what the pipeline itself reads (they cannot be read off the tree alone: the reference used is the
+   one in the RE-PARSED canonical SignedInfo bytes, an oracle):
+     si_comment_safe f   : SignedInfo's canonicaliser drops comments, or SignedInfo holds no comment;
+     ref_comment_safe r  : the reference lists enveloped-signature at most once and its transforms end with a canonicaliser
+                           that drops comments (no c14n transform = the null canonicaliser, which KEEPS them).
+   Then every comment of the document may go -- before the Signature, inside SignedInfo, inside DigestValue / SignatureValue /
+   X509Certificate text -- and the verdict (accepted with the same verified element, missing, fatal) is the same. *)
+Theorem C08_validation_ignores_comments : forall digest sig_ok parse_cert reparse store now root,
+  (forall rf, find_signature root = Ok rf ->
+              keeps_comments (fs_si_alg (snd rf)) = false \/ strip_comments (fs_si_detached (snd rf)) = fs_si_detached (snd rf)) ->
+  (forall r, picked_reference reparse root = Ok r ->
+             Nat.leb (enveloped_count (ref_transforms r)) 1 && negb (keeps_comments (effective_alg r)) = true) ->
+  dsig_validate canon_model digest sig_ok parse_cert reparse store now (strip_comments root) =
+  dsig_validate canon_model digest sig_ok parse_cert reparse store now root.
+Proof. exact validation_ignores_comments. Qed.
+Print Assumptions C08_validation_ignores_comments.
+
+(* two serialisations that differ by comments only, anywhere *)
+Theorem C08_validation_same_modulo_comments : forall digest sig_ok parse_cert reparse store now root1 root2,
+  strip_comments root1 = strip_comments root2 ->
+  (forall rf, find_signature root1 = Ok rf -> si_comment_safe (snd rf)) ->
+  (forall rf, find_signature root2 = Ok rf -> si_comment_safe (snd rf)) ->
+  (forall r, picked_reference reparse root1 = Ok r -> ref_comment_safe r = true) ->
+  dsig_validate canon_model digest sig_ok parse_cert reparse store now root1 =
+  dsig_validate canon_model digest sig_ok parse_cert reparse store now root2.
+Proof. exact validation_same_modulo_comments'. Qed.
+Print Assumptions C08_validation_same_modulo_comments.
+
+(* non-vacuity: a signed document (exc-c14n twice) with a comment at every place one can go -- the signature's path is [3]
+   with them and [1] without --: premises hold, accepted on both sides; and with SignedInfo canonicalised WITH comments,
+   comments everywhere outside SignedInfo *)
+Theorem C08_validation_ignores_comments_example :
+  (let root := LayoutEx.doc alg_exc LayoutEx.usual LayoutEx.C LayoutEx.C in
+   strip_comments root = LayoutEx.base alg_exc LayoutEx.usual /\ root <> LayoutEx.base alg_exc LayoutEx.usual /\
+   (exists r f, find_signature root = Ok (r, f) /\ fs_path f = [3%nat]) /\
+   (exists r f, find_signature (strip_comments root) = Ok (r, f) /\ fs_path f = [1%nat]) /\
+   (forall rf, find_signature root = Ok rf -> si_comment_safe (snd rf)) /\
+   (forall r, picked_reference (LayoutEx.reparse alg_exc LayoutEx.usual) root = Ok r -> ref_comment_safe r = true) /\
+   LayoutEx.run alg_exc LayoutEx.usual root = DOk LayoutEx.verified /\
+   LayoutEx.run alg_exc LayoutEx.usual (strip_comments root) = DOk LayoutEx.verified) /\
+  (let root := LayoutEx.doc alg_exc_wc LayoutEx.usual LayoutEx.C [] in
+   (forall rf, find_signature root = Ok rf -> si_comment_safe (snd rf)) /\
+   (forall r, picked_reference (LayoutEx.reparse alg_exc_wc LayoutEx.usual) root = Ok r -> ref_comment_safe r = true) /\
+   LayoutEx.run alg_exc_wc LayoutEx.usual root = DOk LayoutEx.verified /\
+   LayoutEx.run alg_exc_wc LayoutEx.usual (strip_comments root) = DOk LayoutEx.verified).
+Proof. exact (conj LayoutEx.comments_everywhere LayoutEx.comments_outside_signed_info). Qed.
+Print Assumptions C08_validation_ignores_comments_example.
+
+(* WITHOUT the premises FALSE of the faithful model -- by design of the with-comments algorithms (a comment inside a
+   SignedInfo canonicalised with comments; inside an element digested under a with-comments transform or under no
+   canonicalisation transform: the null canonicaliser keeps comments), and, a curiosity of removeElementAtPath (fixed case
+   of the DSIG stream confirms it on the real library): a reference listing enveloped-signature TWICE removes, the second
+   time, whatever token stands at the signature's index -- the following element in the comment-free document (accepted,
+   that element not digested nor returned), a comment in the commented one (error) *)
+Theorem C08_validation_ignores_comments_without_premises_refuted :
+  (exists root, LayoutEx.run alg_exc_wc LayoutEx.usual (strip_comments root) = DOk LayoutEx.verified /\
+                LayoutEx.run alg_exc_wc LayoutEx.usual root = DErr) /\
+  (exists root, LayoutEx.run alg_exc [alg_enveloped; alg_exc_wc] (strip_comments root) = DOk LayoutEx.verified /\
+                LayoutEx.run alg_exc [alg_enveloped; alg_exc_wc] root = DErr) /\
+  (exists root, LayoutEx.run alg_exc [alg_enveloped] (strip_comments root) = DOk LayoutEx.verified /\
+                LayoutEx.run alg_exc [alg_enveloped] root = DErr) /\
+  (exists root, LayoutEx.run alg_exc [alg_enveloped; alg_enveloped; alg_exc] (strip_comments root) = DOk LayoutEx.verified /\
+                LayoutEx.run alg_exc [alg_enveloped; alg_enveloped; alg_exc] root = DErr /\
+                keeps_comments (CExc "" false) = false).
+Proof. exact validation_comments_matter_without_premises. Qed.
+Print Assumptions C08_validation_ignores_comments_without_premises_refuted.
+
+(* ---- (g) the SAML layer over that signature model: a Response whose own signature is found (accepted or fatally
+        rejected), or any Response when signature checking is off, gives the same Response / AssertionInfo / error in both
+        comment layouts.  PARTIAL: the unsigned-Response path (every assertion validated separately) is not covered. ---- *)
+Theorem C08_accepted_whatever_comment_layout :
+  forall digest sig_ok parse_cert reparse decrypt store cfg now root,
+    let dsig := dsig_validate canon_model digest sig_ok parse_cert reparse store now in
+    (forall rf, find_signature root = Ok rf -> si_comment_safe (snd rf)) ->
+    (forall r, picked_reference reparse root = Ok r -> ref_comment_safe r = true) ->
+    cfg_skip_sig cfg = true \/ dsig root <> DMissing ->
+    validate_response_tree dsig decrypt cfg now (strip_comments root) = validate_response_tree dsig decrypt cfg now root /\
+    retrieve_assertion_info_tree dsig decrypt cfg now (strip_comments root) = retrieve_assertion_info_tree dsig decrypt cfg now root.
+Proof. exact response_ignores_comments. Qed.
+Print Assumptions C08_accepted_whatever_comment_layout.
+
+(* ---- (h) the whole verdict under a change of ATTRIBUTE ORDER: closes the gap of
+        C08_digest_input_ignores_attribute_order_partial for the layouts [po]: in any number of elements whose tag is not
+        Signature, at any depth, the unprefixed non-declaration attributes (ID, Version, IssueInstant, Destination, ...) move
+        freely -- among themselves and relative to the others --, the declarations and prefixed attributes keep their
+        relative order ([fixed_part]), and SortedAttrs.Less can tell the element's attributes apart ([sort_total]); elements
+        tagged Signature are left alone with all they contain.  Then findSignature makes the same visits with the same
+        name-space contexts (they read the declarations in order), finds the same signature at the same path and leaves
+        behind trees related in the same way.
+        PARTIAL as to the reference's canonicaliser (inclusive ones, as C08_canonical_form_ignores_attribute_order_partial:
+        for exc-c14n the sorted slice also holds the declarations it adds) and as to the permutations (declarations /
+        prefixed attributes changing places would need contexts compared up to lookup). ---- *)
+Theorem C08_layouts_related_by_attribute_order : forall sp tg a k sp' tg' a' k',
+  po (Elem sp tg a k) (Elem sp' tg' a' k') <->
+  sp = sp' /\ tg = tg' /\
+  if String.eqb tg "Signature" then a = a' /\ k = k'
+  else (a = a' \/ (Permutation a a' /\ fixed_part a' = fixed_part a /\ sort_total a = true)) /\ po_kids k k'.
+Proof. exact po_elem. Qed.
+Print Assumptions C08_layouts_related_by_attribute_order.
+
+Theorem C08_find_signature_ignores_attribute_order : forall root root',
+  po root root' -> id_of root' = id_of root ->
+  match find_signature root with
+  | Err e => find_signature root' = Err e
+  | Ok (r1, f) => exists r1', find_signature root' = Ok (r1', f) /\ po r1 r1'
+  end.
+Proof. exact find_signature_po. Qed.
+Print Assumptions C08_find_signature_ignores_attribute_order.
+
+Theorem C08_validation_ignores_attribute_order : forall digest sig_ok parse_cert reparse store now root1 root2,
+  po root1 root2 -> id_of root2 = id_of root1 ->
+  (forall r, picked_reference reparse root1 = Ok r -> inclusive (effective_alg r) = true) ->
+  dsig_validate canon_model digest sig_ok parse_cert reparse store now root2 =
+  dsig_validate canon_model digest sig_ok parse_cert reparse store now root1.
+Proof. exact validation_ignores_attribute_order. Qed.
+Print Assumptions C08_validation_ignores_attribute_order.
+
+(* the premise on the ID attribute holds when at most one attribute of the root has the local name ID *)
+Theorem C08_id_lookup_ignores_attribute_order : forall key a a',
+  Permutation a a' -> (List.length (filter (fun x => String.eqb (at_key x) key) a) <= 1)%nat ->
+  select_attr key a' = select_attr key a.
+Proof. exact select_attr_perm. Qed.
+Print Assumptions C08_id_lookup_ignores_attribute_order.
+
+Theorem C08_validation_ignores_attribute_order_example :
+  po LayoutEx2.base2 (LayoutEx2.doc2 LayoutEx2.ra2 LayoutEx2.ia2) /\ LayoutEx2.base2 <> LayoutEx2.doc2 LayoutEx2.ra2 LayoutEx2.ia2 /\
+  id_of (LayoutEx2.doc2 LayoutEx2.ra2 LayoutEx2.ia2) = id_of LayoutEx2.base2 /\
+  (forall r, picked_reference LayoutEx2.reparse2 LayoutEx2.base2 = Ok r -> inclusive (effective_alg r) = true) /\
+  LayoutEx2.run2 LayoutEx2.base2 = DOk LayoutEx.verified /\
+  LayoutEx2.run2 (LayoutEx2.doc2 LayoutEx2.ra2 LayoutEx2.ia2) = DOk LayoutEx.verified.
+Proof. exact LayoutEx2.attributes_moved. Qed.
+Print Assumptions C08_validation_ignores_attribute_order_example.
+
+(* WITHOUT the premise on the ID attribute FALSE of the faithful model (fidelity fact of goxmldsig / etree, fixed cases of the
+   DSIG stream confirm it on the real library): root.SelectAttr("ID") takes the first attribute whose LOCAL name is ID;
+   a root carrying ID="x" and p:ID="y" has the same canonical bytes in both orders, is accepted with ID first and is
+   "not signed" (ErrMissingSignature: gosaml2 goes on to the unsigned-Response path) with p:ID first *)
+Theorem C08_validation_attribute_order_id_namesake_refuted :
+  exists digest sig_ok parse_cert reparse store now root1 root2 v,
+    po root1 root2 /\ id_of root1 = "x"%string /\ id_of root2 = "y"%string /\
+    (forall r, picked_reference reparse root1 = Ok r -> inclusive (effective_alg r) = true) /\
+    canon_model (C11 false) root1 = canon_model (C11 false) root2 /\
+    dsig_validate canon_model digest sig_ok parse_cert reparse store now root1 = DOk v /\
+    dsig_validate canon_model digest sig_ok parse_cert reparse store now root2 = DMissing.
+Proof. exact validation_attribute_order_matters_for_id_namesakes. Qed.
+Print Assumptions C08_validation_attribute_order_id_namesake_refuted.
+
+(* the SAML layer, signed-Response path *)
+Theorem C08_accepted_whatever_attribute_order :
+  forall digest sig_ok parse_cert reparse decrypt store cfg now root1 root2,
+    let dsig := dsig_validate canon_model digest sig_ok parse_cert reparse store now in
+    po root1 root2 -> id_of root2 = id_of root1 ->
+    (forall r, picked_reference reparse root1 = Ok r -> inclusive (effective_alg r) = true) ->
+    cfg_skip_sig cfg = false -> dsig root1 <> DMissing ->
+    validate_response_tree dsig decrypt cfg now root2 = validate_response_tree dsig decrypt cfg now root1 /\
+    retrieve_assertion_info_tree dsig decrypt cfg now root2 = retrieve_assertion_info_tree dsig decrypt cfg now root1.
+Proof. exact response_ignores_attribute_order. Qed.
+Print Assumptions C08_accepted_whatever_attribute_order.
